@@ -37,6 +37,8 @@ Public API
     soups(schema), plain_newick_soups()               token soup over the format's alphabet
     plain_newick_mutants()                            quote/comment-free Newick with structure characters edited
     nexus_statement_soups()                           NEXUS blocks of well-formed statements with arbitrary arguments
+    nexus_link_soups()                                valid-syntax NEXUS mixing titled / untitled blocks, LINKs to
+                                                      existing / case-variant / missing titles, several TRANSLATEs
     KEYWORDS, ALPHABET                                the token alphabets used by the two above
 """
 import json
@@ -995,4 +997,96 @@ def nexus_statement_soups(draw, max_statements=3):
             out += "BEGIN TREES;\n" + "".join(stmts("TREES", 1) + stmts("TREES")[:2]) + end()
         else:
             out += "BEGIN %s;\n" % draw(st.sampled_from(["TAXA", "PAUP", "FOO"])) + "".join(stmts("TAXA")) + end()
+    return out
+
+
+# ---------------------------------------------------------------------------
+# NEXUS link soup: syntactically valid documents that mix titled and untitled blocks, refer to them through LINK
+# statements (existing, case-variant and missing titles) and use TREES blocks with any number of TRANSLATE statements
+# ---------------------------------------------------------------------------
+
+def _title_ref(draw, existing):
+    """a title to LINK to: one that exists, a case variant of one, or one that does not exist"""
+    pool = ["Nope"] if existing else ["Nope", "M1", "Taxa1"]
+    for t in existing:
+        pool.extend([t, t, t, t.upper(), t.lower(), t.swapcase()])
+    return draw(st.sampled_from(pool))
+
+
+@st.composite
+def nexus_link_soups(draw):
+    """'#NEXUS' + 0-2 TAXA blocks, 1-2 matrices, SETS and TREES blocks, every statement well formed.  Blocks are titled
+    or untitled at random; CHARACTERS / SETS / TREES blocks may carry LINK TAXA / LINK CHARACTERS / LINK TREES naming an
+    existing title, a case variant of it or a missing one; a TREES block holds 0-3 TRANSLATE statements (complete,
+    partial, overlapping) followed by trees over declared tokens, taxon labels, taxon numbers and undeclared labels.
+    What a reader must do with each (accept, or refuse with a parse error) is left to the oracle of the caller."""
+    labels = ["a", "b", "c", "d"][:draw(st.integers(2, 4))]
+    ntax = len(labels)
+    out = "#NEXUS\n"
+    taxa_titles, matrix_titles, tree_titles = [], [], []
+    n_taxa_blocks = draw(st.sampled_from([0, 1, 1, 1, 1, 1, 1, 2]))
+    for i in range(n_taxa_blocks):
+        title = draw(st.sampled_from([None, "Taxa%d" % (i + 1), "Taxa%d" % (i + 1)]))
+        out += "BEGIN TAXA;\n"
+        if title:
+            out += "  TITLE %s;\n" % title
+            taxa_titles.append(title)
+        out += "  DIMENSIONS NTAX=%d;\n  TAXLABELS %s;\nEND;\n" % (ntax, " ".join(labels))
+    have_taxa = "BEGIN TAXA" in out
+    blocks = draw(st.lists(st.sampled_from(["M", "S", "T", "T"]), min_size=1, max_size=4))
+    if draw(st.integers(0, 3)) > 0 and "S" in blocks:
+        blocks = ["M"] + [b for b in blocks if b != "M"] + (["M"] if blocks.count("M") > 1 else [])
+    n_m = 0
+    for b in blocks:
+        if b == "M":
+            n_m += 1
+            kind = draw(st.sampled_from(["DATA", "CHARACTERS"])) if have_taxa else "DATA"
+            out += "BEGIN %s;\n" % kind
+            if draw(st.booleans()):
+                t = "M%d" % n_m
+                out += "  TITLE %s;\n" % t
+                matrix_titles.append(t)
+            if (n_taxa_blocks > 1 and taxa_titles) or draw(st.integers(0, 5 if taxa_titles else 11)) == 0:
+                out += "  LINK TAXA = %s;\n" % _title_ref(draw, taxa_titles)
+            out += "  DIMENSIONS %sNCHAR=3;\n" % ("NTAX=%d " % ntax if kind == "DATA" or draw(st.booleans()) else "")
+            out += "  FORMAT DATATYPE=DNA;\n  MATRIX\n" + "".join("    %s ACG\n" % l for l in labels) + "  ;\nEND;\n"
+        elif b == "S":
+            out += "BEGIN %s;\n" % draw(st.sampled_from(["SETS", "SETS", "ASSUMPTIONS"]))
+            for _ in range(draw(st.sampled_from([0, 1, 1, 1, 2]))):
+                kind = draw(st.sampled_from(["CHARACTERS", "CHARACTERS", "CHARACTERS", "TAXA", "TREES"]))
+                existing = {"CHARACTERS": matrix_titles, "TAXA": taxa_titles, "TREES": tree_titles}[kind]
+                out += "  LINK %s = %s;\n" % (kind, _title_ref(draw, existing))
+            for k in range(draw(st.integers(1, 2))):
+                out += "  CHARSET cs%d = %s;\n" % (k + 1, draw(st.sampled_from(["1-2", "1", "2-3", "1-3\\2", "all"])))
+            out += "END;\n"
+        else:
+            out += "BEGIN TREES;\n"
+            if draw(st.integers(0, 2)) == 0:
+                t = "Tr%d" % (len(tree_titles) + 1)
+                out += "  TITLE %s;\n" % t
+                tree_titles.append(t)
+            if (n_taxa_blocks > 1 and taxa_titles) or draw(st.integers(0, 5 if taxa_titles else 11)) == 0:
+                out += "  LINK TAXA = %s;\n" % _title_ref(draw, taxa_titles)
+            families = [list(labels), [str(k + 1) for k in range(ntax)]]
+            odd = list(labels) + ["zz", "Yy", "9"] + [str(k + 1) for k in range(ntax)]
+            for _ in range(draw(st.sampled_from([0, 1, 1, 2, 2, 3]))):
+                toks = draw(st.sampled_from([[str(k + 1) for k in range(ntax)], ["t%d" % k for k in range(ntax)],
+                                             [str(k + 1) for k in range(ntax)][:ntax - 1], ["1"]]))
+                targets = draw(st.sampled_from([labels] * 5 + [list(reversed(labels))] * 2 + [labels[:1] * ntax]))
+                out += "  TRANSLATE %s;\n" % ", ".join("%s %s" % p for p in zip(toks, targets))
+                families.append(toks)
+                odd.extend(toks)
+            for k in range(draw(st.integers(1, 3))):
+                # leaves from one way of naming taxa (labels, numbers or one TRANSLATE's tokens) ...
+                family = draw(st.sampled_from(families[-2:] + families))
+                leaves = list(draw(st.permutations(family)))[:draw(st.integers(2, 4))]
+                if len(leaves) < 2:
+                    leaves.append("zz")
+                if draw(st.integers(0, 2)) == 0:
+                    # ... and now and then one symbol of another kind: undeclared label, number, label next to tokens
+                    leaves[draw(st.integers(0, len(leaves) - 1))] = draw(st.sampled_from(odd))
+                newick = "(%s)" % ",".join(leaves) if len(leaves) < 4 or draw(st.booleans()) else \
+                    "((%s,%s),%s)" % (leaves[0], leaves[1], ",".join(leaves[2:]))
+                out += "  TREE t%d = %s%s;\n" % (k + 1, draw(st.sampled_from(["", "", "[&R] ", "[&U] "])), newick)
+            out += draw(st.sampled_from(["END;\n", "END;\n", "ENDBLOCK;\n"]))
     return out
